@@ -155,7 +155,7 @@ def run_C10(ctx):
                    [EID1, CUTID], ["clean", "error"], ["transport", "stream", "reject"], 3, False)
     drive_client(ctx, r.stdout_path, "body", "result,header,body", "whole", agg)
     # Connect called again on the same Connection after it returned (rejected response, retries exhausted): the Connection's state persists
-    r = tlc_client(ctx, "ClientReconnect", cfgs([-1, 1], body=("nobody", "getbody", "nogetbody")), [EID1, ENOID, EID7], ["clean", "error"],
+    r = tlc_client(ctx, "ClientReconnect", cfgs([-1, 1], body=("nobody", "getbody", "nogetbody", "failgetbody")), [EID1, ENOID, EID7], ["clean", "error"],
                    ["transport", "stream", "reject"], 3 if q else 4, False, max_connects=2 if q else 3)
     drive_client(ctx, r.stdout_path, "reconnect", "result,header,body,events", "whole", agg)
     client_evidence(ctx, agg,
@@ -194,6 +194,10 @@ def run_C12(ctx):
     q = ctx.quick
     r = tlc_client(ctx, "ClientBackoff", c12_cfgs(q), C12_BODIES, ["clean"], ["transport", "stream"], 4 if q else 5, False, timeout=3000)
     drive_client(ctx, r.stdout_path, "backoff", "result,waits", "whole", agg)
+    # Connect called again on the same Connection: every call has a backoff of its own (count and interval start over)
+    rcfgs = [dict(maxRetries=mr, initial=800000, mulNum=2, mulDen=1, maxInterval=0, jitter="none", body="nobody") for mr in (1, 2)]
+    r = tlc_client(ctx, "ClientBackoffReconnect", rcfgs, [P, retry_body(["d1"])], ["clean"], ["transport", "stream", "reject"], 4 if q else 5, False, max_connects=2)
+    drive_client(ctx, r.stdout_path, "backoff-reconnect", "result,waits", "whole", agg)
     # mergeDefaults: InitialInterval <= 0 -> 500 ms, Multiplier < 1 -> 1.5 (observed exactly with Jitter -1; real waits of 0.5 s and 0.75 s)
     dcfgs = [dict(maxRetries=2, initial=i, mulNum=m[0], mulDen=m[1], maxInterval=0, jitter="none", body="nobody") for i in (0, -1000000) for m in ((0, 1), (1, 2), (2, 1))]
     r = tlc_client(ctx, "ClientDefaults", dcfgs[:3] if q else dcfgs, [P], ["clean"], ["transport", "stream"], 3, False)
